@@ -9,7 +9,7 @@ import (
 	"math/big"
 )
 
-var rtTable map[string]stubFn
+var rtTable = map[string]stubFn{}
 
 func rtStr(v value) string {
 	s, ok := v.(string)
@@ -20,7 +20,7 @@ func rtStr(v value) string {
 }
 
 func init() {
-	rtTable = map[string]stubFn{
+	for k, f := range map[string]stubFn{
 		"Int": func(fr *frame, a []value) value {
 			r := fr.i.run
 			lo, hi := r.concreteInt(a[1]), r.concreteInt(a[2])
@@ -214,6 +214,8 @@ func init() {
 		"Ite": func(fr *frame, a []value) value { return fr.i.run.itev(a[0], a[1], a[2]) },
 		"IteF": func(fr *frame, a []value) value { return fr.i.run.itev(a[0], a[1], a[2]) },
 		"IsSymbolic": func(fr *frame, a []value) value { return fr.i.run.concrete == nil },
+	} {
+		rtTable[k] = f
 	}
 }
 
